@@ -154,10 +154,13 @@ def _o_opts(case):
     r0 = [x for x in v0 if x[0] != "exc"]
     if [r for r, _, _ in r0] != allframes:
         raise Fail("validate0-frames", f"validate=0 returned {len(r0)} frames, stream holds {len(allframes)} (good or wrong CRC)")
-    if len(r0) != len(v0):
-        raise Fail("validate0-raised", f"validate=0 raised {[x[1] for x in v0 if x[0] == 'exc']}")
+    nfs = sum(len(i["b"]) // 4 for i in items if i.get("falsesync"))  # each "d3 xx" pair is one unknown-header error
+    if len(v0) - len(r0) != (nfs if qoe == 2 else 0):
+        raise Fail("validate0-raised", f"validate=0 raised {[x[1] for x in v0 if x[0] == 'exc']}; the stream holds {nfs} false sync pair(s) and no other reason to raise")
     for (raw, parsed, _), gf in zip(r0, gall):
         ref = RTCMReader.parse(gf, validate=1, labelmsm=lm)
+        if parsed is not None and bytes(parsed.serialize()) != bytes(ref.serialize()):
+            raise Fail("validate0-decode-differs", f"frame {raw.hex()[:40]}.. read with validate=0 serialises differently from the same payload with a right CRC")
         if parsed is None or parsed.payload != ref.payload or pub(parsed) != pub(ref):
             raise Fail("validate0-decode-differs", f"frame {raw.hex()[:40]}.. decoded differently from the same payload with a right CRC")
         st_ = RTCMReader.parse(raw, validate=0, labelmsm=lm)
@@ -180,12 +183,14 @@ def _o_opts(case):
     if not set(sp1) <= set(sp0):
         raise Fail("byte-accounting", "validate changed which bytes are taken for a frame")
     nexc = len(v1) - len(r1)
-    if qoe == 2 and nexc != len(allframes) - len(goodframes):
-        raise Fail("validate1-raise-count", f"{nexc} exceptions for {len(allframes) - len(goodframes)} wrong-CRC frames")
+    if qoe == 2 and nexc != len(allframes) - len(goodframes) + nfs:
+        raise Fail("validate1-raise-count", f"{nexc} exceptions for {len(allframes) - len(goodframes)} wrong-CRC frames and {nfs} false sync pair(s)")
 
     # parsed = False on the all-valid version: same raw frames as parsed = True, no objects
     pt, spt = run(gdata, validate=case["validate"], quitonerror=qoe, labelmsm=lm, parsed=ON)
     pf, spf = run(gdata, validate=case["validate"], quitonerror=qoe, labelmsm=lm, parsed=OFF)
+    pt = [x for x in pt if x[0] != "exc"]  # raise mode: the false sync pairs are reported in both runs
+    pf = [x for x in pf if x[0] != "exc"]
     if [x[0] for x in pf] != [x[0] for x in pt] or [x[0] for x in pt] != gall:
         raise Fail("parsed-false-frames", f"parsed=False returned {len(pf)} frames, parsed=True {len(pt)}, stream holds {len(gall)}")
     if any(x[1] is not None for x in pf):
@@ -201,6 +206,8 @@ def _o_opts(case):
     nbad = len(allframes) - len(goodframes)
     foreign = any(i["k"] in ("nmea", "ubx", "noise") for i in items)
     cls = [f"qoe{qoe}", f"labelmsm{lm}", f"validate{case['validate']}", "stream-" + case.get("stream", "scripted")] + (["debug-logging"] if case.get("debug") else []) + (["readers-constructed-up-front"] if case.get("preconstruct") else [])
+    if any(i.get("falsesync") for i in items):
+        cls.append("false-sync-with-reserved-bits")
     if nbad:
         cls.append("has-wrong-crc")
     if any(i["k"] == "badcrc" and i.get("syncy_payload") for i in items):
@@ -221,7 +228,9 @@ def badcrc(draw):
 
 @st.composite
 def s_opts(draw, tier):
-    items = draw(st.lists(st.one_of(streams.frames("small"), streams.frames("small"), badcrc(), streams.nmea(), streams.ubx(), streams.inert_noise()), min_size=1, max_size=8))
+    # "d3" followed by a byte with reserved bits set is not a frame header, with validation on or off
+    falsesync = st.builds(lambda x, n: streams.item("noise", (b"\xd3" + bytes([x])) * n, falsesync=True), st.sampled_from([0x04, 0x08, 0x40, 0x80, 0x84, 0xFC, 0xFF, 0xD3]), st.integers(1, 3))
+    items = draw(st.lists(st.one_of(streams.frames("small"), streams.frames("small"), badcrc(), streams.nmea(), streams.ubx(), streams.inert_noise(), falsesync), min_size=1, max_size=8))
     return {
         "items": items,
         "labelmsm": draw(st.sampled_from([1, 2])),
@@ -240,5 +249,5 @@ def _sample(c):
 
 
 SUBS = [
-    Sub("option_differential", o_opts, strategy=s_opts, examples=(150, 3000), rule="see property rule", need={"has-wrong-crc": 1, "has-foreign": 1, "wrong-crc-frame-with-sync-like-payload": 1, "stream-buffered": 1, "debug-logging": 1}, sample=_sample),
+    Sub("option_differential", o_opts, strategy=s_opts, examples=(150, 3000), rule="see property rule", need={"has-wrong-crc": 1, "has-foreign": 1, "wrong-crc-frame-with-sync-like-payload": 1, "stream-buffered": 1, "debug-logging": 1, "false-sync-with-reserved-bits": 1}, sample=_sample),
 ]
